@@ -54,7 +54,11 @@ func genBatchRetry(r *rng, thorough bool, emit func(FlowScenario)) {
 
 // long paths: a self-loop / a two-node cycle taken many more times than any plausible step limit before it exits. The
 // looping visits share one default script per node; only the exiting visit has a script of its own.
-func genLongLoops(r *rng, thorough bool, emit func(FlowScenario)) {
+func genLongLoops(r *rng, thorough bool, emit func(FlowScenario)) { genLongLoopsVia(r, thorough, "again", "=again", emit) }
+
+// genLongLoopsVia: the looping edge carries `action`, the looping visits' post script is `post` ("=" = the empty action,
+// which is the default action: the loop then runs on DEFAULT connections)
+func genLongLoopsVia(r *rng, thorough bool, action, post string, emit func(FlowScenario)) {
 	t := &tokGen{r: r}
 	lens := []int{1100, 10500}
 	if thorough {
@@ -72,14 +76,14 @@ func genLongLoops(r *rng, thorough bool, emit func(FlowScenario)) {
 			a, b := leaf, leaf
 			sc := FlowScenario{Kind: "canceled", Ctx0: "live", LeafScripts: []LeafScript{}, BatchScripts: []BatchScript{}}
 			sc.Nodes = []NodeDef{{ID: 0, Leaf: &a}, {ID: 1, Leaf: &b}}
-			ops := []Conn{{Src: 0, Action: "again", Dst: ip(0)}, {Src: 0, Action: "out", Dst: ip(1)}}
+			ops := []Conn{{Src: 0, Action: action, Dst: ip(0)}, {Src: 0, Action: "out", Dst: ip(1)}}
 			if two {
-				ops = []Conn{{Src: 0, Action: "again", Dst: ip(1)}, {Src: 1, Action: "again", Dst: ip(0)}, {Src: 1, Action: "out", Dst: nil}}
+				ops = []Conn{{Src: 0, Action: action, Dst: ip(1)}, {Src: 1, Action: action, Dst: ip(0)}, {Src: 1, Action: "out", Dst: nil}}
 			}
 			sc.Nodes = append(sc.Nodes, NodeDef{ID: 2, Flow: &FlowDef{Start: ip(0), Ops: ops}})
 			t.next, t.errN = r.intn(30), 0
 			loop := func(id int) LeafScript {
-				s := t.leafScript(id, 0, true, 1, 1, true, "=again")
+				s := t.leafScript(id, 0, true, 1, 1, true, post)
 				s.Prep, s.Exec = "t1", []string{"t2"}
 				return s
 			}
@@ -335,7 +339,7 @@ func genC17(r *rng, thorough bool, emit func(FlowScenario)) {
 }
 
 func genC18(r *rng, thorough bool, emit func(FlowScenario)) {
-	genLongLoops(r, thorough, emit)
+	genLongLoopsVia(r, thorough, "default", "=", emit) // a long loop on DEFAULT connections (post returns the empty action)
 	t := &tokGen{r: r}
 	// … including nodes whose BaseNode is the zero value (never went through NewBaseNode): cancellation-free runs only
 	nilPtrKind := LeafCfg{Retryable: false, Fb: "absent", PrepS: "direct", ExecS: "direct", PostS: "direct", Impl: "nilptr"}
